@@ -1056,6 +1056,21 @@ func withEquivalents(fs []FactT) []FactT {
 		} else if strings.Contains(t, " : ") {
 			continue
 		}
+		// a length is never negative: len(x) > 0 ≡ len(x) >= 1 ≡ len(x) != 0 (and their negations)
+		if strings.HasPrefix(t, "(len(") {
+			for _, form := range []struct {
+				op      string
+				nonzero bool
+			}{{" > 0)", true}, {" >= 1)", true}, {" < 1)", false}, {" <= 0)", false}} {
+				if strings.HasSuffix(t, form.op) {
+					x := t[1 : len(t)-len(form.op)]
+					if len(splitTop(x, " ")) == 1 {
+						add("("+x+" != 0)", holds == form.nonzero, f.Where)
+						add("("+x+" == 0)", holds != form.nonzero, f.Where)
+					}
+				}
+			}
+		}
 		// sdk.Coins.Empty(x) ≡ (len(x) == 0)
 		if strings.HasPrefix(t, "sdk.Coins.Empty(") && strings.HasSuffix(t, ")") && len(splitTop(t[len("sdk.Coins.Empty("):len(t)-1], ", ")) == 1 {
 			x := t[len("sdk.Coins.Empty(") : len(t)-1]
